@@ -107,7 +107,9 @@ pub proof fn axiom_keycode_total_order()
   ensures vstd::relations::total_ordering(ord_leq_fn::<KeyCode>())
 {}
 //#endif
-pub assume_specification<'a> [<std::str::Chars<'a> as std::iter::Iterator>::count] (c: std::str::Chars<'a>) -> usize;
+// `count` consumes the iterator and returns how many items were left (std documentation); vstd knows that `s.chars()` has all of `s@` left
+pub assume_specification<'a> [<std::str::Chars<'a> as std::iter::Iterator>::count] (c: std::str::Chars<'a>) -> (r: usize)
+  ensures r == vstd::std_specs::iter::IteratorSpec::remaining(&c).len();
 // Vec::extend over references to Copy values appends copies of the items the argument yields, in order (std documentation of `Extend<&'a T> for Vec<T>`);
 // what a `&Vec<T>` yields is its elements in order (axiom_ext_items_vec). Both are ASSUMED.
 pub uninterp spec fn ext_items<T, I>(i: I) -> Seq<T>;
